@@ -292,7 +292,14 @@ def r5_epoch_filters(ctx):
                 r.violation(fn + "/filter/extra:" + sorted(set(other))[0].replace("@", "$2" if fn != "unlock_old" else "$3").replace("EPOCH", "^epoch").replace("KEY", "^key"),
                             "an additional / different condition %s is applied (expected exactly %s)" % (sorted(set(other)), atoms))
             else:
-                r.violation(fn + "/filter/missing:" + orig, "the condition %s is not evaluated anywhere in %s" % (orig, fn))
+                # one of the two operands IS compared with something this rule cannot resolve to the other (a value passed through an enum payload,
+                # a struct field, a helper's parameter): the condition may well be there in another spelling — not decided
+                ops_ = [m.group(2), m.group(3)] if m else []
+                partial = [c_ for body in nested for e_, c_, bi_ in q.cmp_atoms(body) if any(o_ in generic(c_) for o_ in ops_ if o_.startswith("@."))]
+                if partial:
+                    r.undecided(fn + "/filter/missing:" + orig, "%s does not evaluate %s in a recognised form, but compares %s: not decided" % (fn, orig, sorted(set(partial))[:2]))
+                else:
+                    r.violation(fn + "/filter/missing:" + orig, "the condition %s is not evaluated anywhere in %s" % (orig, fn))
         if missing:
             continue
         bool_cl = [c for c in cl if c.locals[0]["ty"] == "bool" and all(any(roles(cc, c) == w for e_, cc, b_ in q.pick_atoms(c, lambda c_, c=c: roles(c_, c) in want)) for w in want)]
